@@ -405,6 +405,24 @@ func (fx *Fx) runLoop(st *State, lp *loopParts) {
 		}
 	}
 	// 5. after the loop
+	if lp.spec != nil && len(lp.spec.Exit) > 0 {
+		for xi, x := range append([]*State{exitSt}, jc.breaks...) {
+			if x == nil || x.dead {
+				continue
+			}
+			sfx := ""
+			if xi > 0 {
+				sfx = fmt.Sprintf(".break%d", xi)
+			}
+			for k, ec := range lp.spec.Exit {
+				phi, ok := fx.specBoolIfInScope(fx.specEnv(x, fx.entry, lp.body.Lbrace+1), ec.Expr)
+				if !ok {
+					continue
+				}
+				c.oblige(x, "loop-exit", clauseAnchor(tag, ec, k)+sfx, phi, ec.Text, fx.w.pos(lp.node.Pos()))
+			}
+		}
+	}
 	if fx.tailStmt != nil && fx.tailStmt == lp.node && !c.dry {
 		// the loop is the last statement of the function (at most a bare return follows): every way out of the loop
 		// returns on its own, so that postconditions are checked per path instead of on a merged state
